@@ -78,6 +78,12 @@ class Oracle:
     def on_datagram_delivered(self, ep, dgram, copy_index):
         pass
 
+    def on_frontend_datagram(self, ep, dgram, copy_index):
+        """a datagram reached the server's address while no connection object existed: called before the
+        front-end stub looks at it (it may answer with Retry / Version Negotiation, drop it, or create the
+        connection, in which case on_datagram_delivered follows for the same datagram)"""
+        pass
+
     def after_step(self):
         pass
 
@@ -250,6 +256,8 @@ class Endpoint:
             return
         sim = self.sim
         if self.conn is None:
+            for o in sim.oracles:
+                o.on_frontend_datagram(self, dgram, copy_index)
             if not sim.server_accept(self, dgram):
                 return
         if self.terminated and not sim.poke_after_termination:
